@@ -1,3 +1,4 @@
+import MxModel.Generated.Tables
 /-!
 # DocQuote: how a documentation string is written and how Python reads it back
 
@@ -49,21 +50,14 @@ namespace MxModel.DocQuote
 
 /-! ## Writer -/
 
-/-- `_DOCSTR_ESCAPES.get(c)`: backslash, NUL, and every character at which `str.splitlines`
+/-- `_DOCSTR_ESCAPES` as it stands in `modelx/core/formula.py` NOW (read by the table translator on
+every run, `Generated/Tables.lean`): backslash, NUL, and every character at which `str.splitlines`
 splits a text, except the line feed -/
-def escapeOf (c : Char) : Option (List Char) :=
-  if c = '\\' then some ['\\', '\\']
-  else if c = Char.ofNat 0 then some ['\\', 'x', '0', '0']
-  else if c = '\r' then some ['\\', 'r']
-  else if c = Char.ofNat 0x0b then some ['\\', 'x', '0', 'b']
-  else if c = Char.ofNat 0x0c then some ['\\', 'x', '0', 'c']
-  else if c = Char.ofNat 0x1c then some ['\\', 'x', '1', 'c']
-  else if c = Char.ofNat 0x1d then some ['\\', 'x', '1', 'd']
-  else if c = Char.ofNat 0x1e then some ['\\', 'x', '1', 'e']
-  else if c = Char.ofNat 0x85 then some ['\\', 'x', '8', '5']
-  else if c = Char.ofNat 0x2028 then some ['\\', 'u', '2', '0', '2', '8']
-  else if c = Char.ofNat 0x2029 then some ['\\', 'u', '2', '0', '2', '9']
-  else none
+def escapeTable : List (Char × List Char) :=
+  MxModel.Generated.docstrEscapes.map (fun p => (Char.ofNat p.1, p.2.map Char.ofNat))
+
+/-- `_DOCSTR_ESCAPES.get(c)` -/
+def escapeOf (c : Char) : Option (List Char) := escapeTable.lookup c
 
 /-- the loop of `quote_docstring`; `quotes` = length of the current run of unescaped quotes -/
 def quoteBody : Nat → List Char → List Char
@@ -217,8 +211,10 @@ def usesNamed : List Char → Bool
 /-! ## Characters a source text does not keep -/
 
 /-- NUL (rejected by `ast.parse`), the carriage return (newline translation) and the other
-characters at which `str.splitlines` splits (the `Formula` constructor re-joins the lines
-of a def with `\n`) -/
+characters at which `str.splitlines` splits (`FunctionDefParser` of the serializer still cuts a def
+with `splitlines` and re-joins the lines with `\n`; `remove_decorator`/`replace_funcname` do not any
+more since 067a1c5 - they cut at `\r\n`, `\r`, `\n` only (`_source_lines`), for which the
+statements below hold a fortiori) -/
 def sourceUnsafe : List Char :=
   [Char.ofNat 0, '\r', Char.ofNat 0x0b, Char.ofNat 0x0c, Char.ofNat 0x1c, Char.ofNat 0x1d,
    Char.ofNat 0x1e, Char.ofNat 0x85, Char.ofNat 0x2028, Char.ofNat 0x2029]
@@ -228,8 +224,8 @@ def otherBoundaries : List Char :=
   ['\r', Char.ofNat 0x0b, Char.ofNat 0x0c, Char.ofNat 0x1c, Char.ofNat 0x1d,
    Char.ofNat 0x1e, Char.ofNat 0x85, Char.ofNat 0x2028, Char.ofNat 0x2029]
 
-/-- `"\n".join(text.splitlines())`, as `remove_decorator` / `replace_funcname` (the `Formula`
-constructor of a def) and `FunctionDefParser` apply it to the source of a def: every line
+/-- `"\n".join(text.splitlines())`, as `FunctionDefParser` (`serializer_6.py`) applies it to the
+source of a def (and as `remove_decorator` / `replace_funcname` did before 067a1c5): every line
 boundary becomes a line feed (`\r\n` is one boundary), the final one is dropped.  The flag:
 the previous character was `\r`. -/
 def splitJoin : Bool → List Char → List Char
